@@ -29,6 +29,7 @@ CONSTANTS
   PurgeFences = TRUE
   SaveUnderLock = TRUE
   PurgeHoldsShard = TRUE
+  LoadUnderLock = TRUE
   AbsentPurge = TRUE
   Reapplies = FALSE
   Ghost = TRUE
